@@ -467,6 +467,39 @@ func runC04Extra(e *core.Env) {
 			}
 		}
 	})
+	// real, short deadlines: the client-side and the server-side timer race each other and the handler's work
+	e.Cases("real-deadline", e.N(120, 1500), func(i int, r *rand.Rand) {
+		kind := Kind(i % 4)
+		for _, c := range cs.list {
+			sc := genCancelScript(r, kind, c.HTTP, "ignore", -1)
+			work := time.Duration(r.Intn(12000)) * time.Microsecond
+			pos := r.Intn(len(sc.Handler) + 1)
+			h := append([]Op{}, sc.Handler[:pos]...)
+			h = append(h, Op{Op: "sleepctx", Gate: work.String()})
+			sc.Handler = append(h, sc.Handler[pos:]...)
+			if r.Intn(3) == 0 {
+				sc.Ret = Ret{How: "ctxerr"}
+				sc.Handler = append(sc.Handler[:pos+1:pos+1], Op{Op: "waitctx"})
+			}
+			dl := time.Duration(500+r.Intn(9000)) * time.Microsecond
+			parent, cancel := context.WithTimeout(context.Background(), dl)
+			run := c.Svc.NewRun(sc, c.Name)
+			ok, _ := run.Exec(c.CC, parent, watchdog)
+			cancel()
+			run.Cancel()
+			c.Svc.Forget(run)
+			if !ok {
+				run.ReleaseAll()
+				e.Violate(fmt.Sprintf("%s/%s/real-deadline/not-prompt", c.Name, kindClass(kind)), fmt.Sprintf("a call with a %v deadline (handler working %v) did not finish", dl, work), witness(run))
+				continue
+			}
+			e.Eval(fmt.Sprintf("real-deadline|%s|%s|%v", c.Name, kind, work > dl), true)
+			for _, v := range cancelOracle(run, "deadline", 0, c) {
+				e.Violate(fmt.Sprintf("%s/%s/real-deadline/%s", c.Name, kindClass(kind), v.sig), fmt.Sprintf("[deadline %v, handler works %v] %s", dl, work, v.msg), witness(run))
+			}
+		}
+	})
+
 	e.Cases("partial-body", e.N(60, 600), func(i int, r *rand.Rand) {
 		stream := i%2 == 0
 		mode := []string{"cancel", "deadline"}[(i/2)%2]
